@@ -131,6 +131,9 @@ pub fn check(c: &Case, rec: &mut Rec) -> CheckResult {
     };
     if !rec.muted {
         rec.class(class);
+        if class != "no_fault_reached" {
+            rec.class("fault_injected");
+        }
         if kind_changed.get() > 0 {
             rec.class("io_error_kind_not_passed_through(informational)");
         }
@@ -211,7 +214,11 @@ pub fn run(e: &Engine) {
             enumerate(&pairs, *set, *cap, rec).map_err(|(_, f)| f)
         },
     );
-    for cls in ["fault_in_new", "fault_in_insert", "fault_in_finish", "fault_in_flush", "kind:Ok(0)", "kind:WouldBlock", "no_fault_reached"] {
+    for cls in ["fault_in_new", "fault_in_insert", "fault_in_finish"] {
+        // which builder call a sink failure surfaces in depends on how the builder batches its writes
+        e.expect_class(cls, 1);
+    }
+    for cls in ["fault_injected", "fault_in_flush", "kind:Ok(0)", "kind:WouldBlock", "no_fault_reached"] {
         e.require_class(cls, 1);
     }
 }
